@@ -313,7 +313,12 @@ def run_check(mod, tier, seed, only=None):
                 pass
     workdir = common.scratch('flexsim-%s-' % mod.ID)
     try:
-        flex = common.build_flex(workdir, log=log)
+        if os.environ.get('VERIF_FLEX_OVERRIDE'):
+            # sensitivity experiments only: judge a prebuilt flex instead of /repo's tree
+            flex = os.environ['VERIF_FLEX_OVERRIDE']
+            log('using prebuilt flex %s (VERIF_FLEX_OVERRIDE)' % flex)
+        else:
+            flex = common.build_flex(workdir, log=log)
         flex_san = None
         if getattr(mod, 'NEEDS_SAN_FLEX', False):
             flex_san = common.build_flex(workdir, san=True, log=log)
